@@ -152,6 +152,11 @@ type simConn struct {
 	closed  bool
 	release *wpol // outcome the script opened the write gate with
 	atGate  bool  // a Write waits at the gate
+	// read deadline bookkeeping: the scripted connection never lets time pass, it records whether the client
+	// would be woken by a deadline while the broker stalls
+	readArmed bool
+	delivered []byte // everything handed to the client so far
+	atStall   bool   // a Read waits for a broker that sends nothing
 }
 
 func newSimConn(id int, log *eventLog) *simConn {
@@ -177,6 +182,12 @@ func (c *simConn) openGate(o wpol) {
 	c.mu.Unlock()
 }
 
+func (c *simConn) stalled() bool {
+	c.mu.Lock()
+	defer c.mu.Unlock()
+	return c.atStall
+}
+
 func (c *simConn) isClosed() bool {
 	c.mu.Lock()
 	defer c.mu.Unlock()
@@ -197,6 +208,7 @@ func (c *simConn) Read(p []byte) (int, error) {
 		switch h.kind {
 		case "data":
 			n := copy(p, h.data)
+			c.delivered = append(c.delivered, p[:n]...)
 			if n == len(h.data) {
 				c.inq = c.inq[1:]
 			} else {
@@ -216,7 +228,17 @@ func (c *simConn) Read(p []byte) (int, error) {
 				c.inq = c.inq[1:]
 				continue
 			}
+			if pos := c.position(); pos != "boundary" && !c.atStall {
+				// the broker stalls inside the handshake or inside a packet: PauseTimeout must be able to end this wait
+				armed := "unarmed"
+				if c.readArmed {
+					armed = "armed"
+				}
+				c.log.add("ev stall %d %s %s", c.id, pos, armed)
+			}
+			c.atStall = true
 			c.cond.Wait()
+			c.atStall = false
 		}
 	}
 }
@@ -286,6 +308,51 @@ func (c *simConn) Close() error {
 
 func (c *simConn) LocalAddr() net.Addr              { return nil }
 func (c *simConn) RemoteAddr() net.Addr             { return nil }
-func (c *simConn) SetDeadline(time.Time) error      { return nil }
-func (c *simConn) SetReadDeadline(time.Time) error  { return nil }
+func (c *simConn) SetDeadline(t time.Time) error {
+	c.mu.Lock()
+	c.readArmed = !t.IsZero()
+	c.mu.Unlock()
+	return nil
+}
+func (c *simConn) SetReadDeadline(t time.Time) error {
+	c.mu.Lock()
+	c.readArmed = !t.IsZero()
+	c.mu.Unlock()
+	return nil
+}
+
+// position tells where in the inbound stream the client stands: in the handshake reply, on a packet
+// boundary, or inside a packet (fixed header or body incomplete).
+func (c *simConn) position() string {
+	d := c.delivered
+	if len(d) < 4 {
+		return "handshake"
+	}
+	d = d[4:]
+	for len(d) > 0 {
+		if len(d) < 2 {
+			return "inpacket"
+		}
+		size, k := 0, 1
+		for shift := uint(0); ; shift += 7 {
+			if k >= len(d) {
+				return "inpacket"
+			}
+			b := d[k]
+			k++
+			size |= int(b&0x7f) << shift
+			if b&0x80 == 0 {
+				break
+			}
+			if shift >= 21 {
+				return "boundary" // not a packet any more: the client has given up on this stream
+			}
+		}
+		if len(d) < k+size {
+			return "inpacket"
+		}
+		d = d[k+size:]
+	}
+	return "boundary"
+}
 func (c *simConn) SetWriteDeadline(time.Time) error { return nil }
